@@ -1,8 +1,18 @@
-import BrushVerif.Model.Wire
-/-! Driver for C02 (stub until the property's model exists). -/
+import BrushVerif.Drv.FlowWire
+import BrushVerif.Spec.FlowBash
+import BrushVerif.Spec.FlowScope
+/-! Driver for C02: `C02 <program wire>` →
+`<impl status> <impl trace> | <bash-spec status> <trace> | D=<violated guard clauses or ->`. -/
 namespace BrushVerif.Drv.C02
-open BrushVerif.Wire
+open BrushVerif.Wire BrushVerif.Flow BrushVerif.Drv.FlowWire BrushVerif.FlowScope
 
-def handle (_toks : List Str) : Str := "unimplemented".toList
+def handle (toks : List Str) : Str :=
+  match pProg toks with
+  | none => "bad-program".toList
+  | some (fs, main) =>
+    let cl := (progViol fs main).eraseDups.map (fun c => c.name.toList)
+    showOut (runProgram 100000 fs main) ++ " | ".toList ++
+      showOut (BrushVerif.FlowBash.runProgram 100000 fs main) ++ " | D=".toList ++
+      (if cl.isEmpty then ['-'] else joinWith [','] cl)
 
 end BrushVerif.Drv.C02
